@@ -547,6 +547,8 @@ class Interp:
             return args[0]
         if fn in ("alloc::string::String::new", "alloc::string::String::with_capacity"):
             return vstr("")
+        if fn in ("std::collections::hash::map::HashMap::new", "std::collections::hash::map::HashMap::with_capacity", "alloc::collections::btree::map::BTreeMap::new"):
+            return Val("list", [], "map")
         if fn.startswith(("core::ops::bit::", "core::ops::arith::")) and len(d) == 2 and d[0].k == "int" and d[1].k == "int":
             x, y = d[0].v, d[1].v
             ops = {"bitand": lambda: x & y, "bitor": lambda: x | y, "bitxor": lambda: x ^ y, "shr": lambda: x >> y if 0 <= y < 128 and x >= 0 else None,
@@ -633,6 +635,11 @@ class Interp:
         if fn in ("alloc::string::String::push", "alloc::string::String::push_str") and cur.k == "str" and len(args) > 1 and args[1].deref().k in ("str", "char"):
             env[tgt] = vstr(cur.v + args[1].deref().v)
             return UNIT
+        if fn in ("std::collections::hash::map::HashMap::insert", "alloc::collections::btree::map::BTreeMap::insert") and cur.k == "list" and cur.extra == "map" and len(args) > 2:
+            k0 = args[1].deref()
+            old = [x for x in cur.v if x.v[0].deref().k == k0.k and x.v[0].deref().k in ("str", "variant", "int") and x.v[0].deref().v == k0.v]
+            env[tgt] = Val("list", [x for x in cur.v if x not in old] + [Val("tuple", [args[1], args[2]])], "map")
+            return some(old[0].v[1]) if old else NONE_V
         if fn == "alloc::vec::Vec::pop" and cur.k == "list":
             if cur.v:
                 env[tgt] = Val("list", list(cur.v[:-1]))
@@ -753,6 +760,8 @@ class Interp:
                     else:
                         return UNKNOWN
                 return Val("adt", [Val("list", vals)], ("core::result::Result", "Ok"))
+            if dty.startswith(("std::collections::hash::map::HashMap<", "alloc::collections::btree::map::BTreeMap<")) and all(x.deref().k == "tuple" and len(x.deref().v) == 2 for x in items):
+                return Val("list", [x.deref() for x in items], "map")
             if "Vec<" in dty or "HashSet<" in dty or "BTreeSet<" in dty:
                 return Val("list", items)
             if dty == "alloc::string::String" and all(x.deref().k in ("str", "char") for x in items):
@@ -818,6 +827,13 @@ class Interp:
             key = cs.gbodies[0]
         prog = getattr(self.body, "prog", None)
         cb = prog.body(key) if (prog is not None and key) else None
+        if cb is not None and key and f is not None and f.k == "fn" and self.call_model is not None:
+            fake = _FnValueCall(cs, key)
+            r = self.call_model(fake, list(cargs))
+            if r is not None:
+                if self._res is not None:
+                    self._res.calls.append((fake, list(cargs), r))
+                return r
         if cb is None and key and f is not None and f.k == "fn":
             # a function item of another crate passed as a value (`map(Uid::from_raw)`): ask the rule's call model as if it were
             # called directly
